@@ -445,6 +445,33 @@ def _slow_case(draw):
     return {"events": events, "reactions": {}, "fates": [], "rng": draw(st.integers(0, 9)), "render_delay": rdelay}
 
 
+@st.composite
+def _early_end_case(draw):
+    """a registration whose first rendering takes time and that is ended while that rendering is still under way: by
+    another request on its token, a transport error for the observer or the shutdown of the context; state changes
+    follow later.  Whatever happened to it, the resource must be told (observer count back at the number of live
+    registrations) and nothing may be sent for it afterwards."""
+    rdelay = draw(st.sampled_from([0.1, 0.3]))
+    events = [{"kind": "register", "t": 0.0, "observer": 0, "token": 0, "con": draw(st.booleans())}]
+    if draw(st.booleans()):
+        events.append({"kind": "register", "t": 0.0, "observer": 1, "token": draw(st.integers(0, 1)), "con": draw(st.booleans())})
+    t_in = round(rdelay * draw(st.sampled_from([0.25, 0.5, 0.9])), 6)
+    ender = draw(st.sampled_from(["plain", "deregister", "register", "icmp", "shutdown", "none"]))
+    case = {"reactions": {}, "fates": [], "rng": draw(st.integers(0, 9)), "render_delay": rdelay}
+    if ender in ("plain", "deregister", "register"):
+        events.append({"kind": ender, "t": t_in, "observer": 0, "token": 0, "con": draw(st.booleans())})
+    elif ender == "icmp":
+        events.append({"kind": "icmp", "t": t_in, "observer": 0})
+    elif ender == "shutdown":
+        case["shutdown"] = t_in
+    t = 2.0
+    for _ in range(draw(st.integers(0, 3))):
+        t += draw(st.sampled_from([0.5, 1.0, 3.0]))
+        events.append({"kind": "bump", "t": round(t, 6), "n": 1})
+    case["events"] = events
+    return case
+
+
 def selftest():
     import aiocoap.interfaces as itf
 
@@ -473,7 +500,7 @@ RULE = (
     "datagram fates (drop/delay/dup). Oracle: a model replays the processed events in order and derives for every accepted registration its end cause and instant (RST matching a CON "
     "notification, unsuccessful / last notification, new request on the token, CON notification time-out, transport error, shutdown); per registration the Observe values on the wire strictly "
     "increase, no state that changed after the end is ever sent to it, at quiescence a probe state change reaches exactly the registrations still alive (latest state eventually sent / nothing for "
-    "ended ones), the resource's observer count moves in steps of 1 and ends at the number of alive registrations, no loop exception. slow_render: the resource takes 20/100/300 ms to render after reading its state; 1-3 observers register, then 1-10 state changes follow at gaps of 0.5-3 rendering times (many land while a notification is being rendered) and a final burst of two changes, the second during the rendering of the first: every live registration must still get the final state. Non-trivial = a state change within 300 ms after a CON "
+    "ended ones), the resource's observer count moves in steps of 1 and ends at the number of alive registrations, no loop exception. early_end: the first rendering of a registration takes 100/300 ms and the registration is ended while it is under way (plain GET / Observe 1 / new Observe 0 on its token, ICMP error for the observer, shutdown), state changes follow: same oracle, in particular the observer count returns to the number of live registrations. slow_render: the resource takes 20/100/300 ms to render after reading its state; 1-3 observers register, then 1-10 state changes follow at gaps of 0.5-3 rendering times (many land while a notification is being rendered) and a final burst of two changes, the second during the rendering of the first: every live registration must still get the final state. Non-trivial = a state change within 300 ms after a CON "
     "notification went out (in flight), or an end cause other than shutdown. Distinct = SHA-1 of the case."
 )
 
@@ -482,6 +509,7 @@ def build(tier):
     return CheckSpec(
         [
             Sub("scenarios", run_case, strategy=_case, budget={"quick": 6000, "thorough": 60000}, max_wall={"quick": 55, "thorough": 2400}),
+            Sub("early_end", run_case, strategy=_early_end_case, budget={"quick": 600, "thorough": 6000}, max_wall={"quick": 40, "thorough": 600}),
             Sub("slow_render", run_case, strategy=_slow_case, budget={"quick": 1500, "thorough": 20000}, max_wall={"quick": 40, "thorough": 1200}),
         ],
         RULE,
